@@ -32,8 +32,17 @@ reg("C12", False, "exploration", "", "", "", "3 C12")
 reg("C13", True, "exploration", "property-based differential testing: ASCII vs UTF-8 entry points on generated ASCII haystacks",
     "Random search; patterns may mention non-ASCII characters and fold partners; haystacks over all 128 bytes; every start; both executors and pipelines.",
     "Trusted: fuel hook.", "3 C13")
-for i in range(14, 21):
+for i in (14, 15, 19, 20):
     reg("C%02d" % i, False, "exploration", "", "", "", "3 C%02d" % i)
+reg("C16", True, "exploration", "property-based testing: accessor identities + group count/name order from the generator's AST, duplicate names across alternatives",
+    "Random search over patterns with named/unnamed/duplicate-named groups (incl. inside lookbehind and loops); every accessor identity is asserted on every match.",
+    "Trusted: the generator's AST for group count and names (patterns are valid by construction; a rejected one is reported). Fuel hook.", "3 C16")
+reg("C17", True, "exploration", "property-based testing: splice-and-expand reference model over the library's own match sequence, template token grammar",
+    "Random search over pattern x haystack x template; replace/replace_all must equal the model; closure variants obey identity / call-order / length laws.",
+    "Trusted: find_iter for the match sequence (C01/C09), named_groups() for name resolution (C16). Group numbers above 65535 are outside the documented contract.", "3 C17")
+reg("C18", True, "exploration", "property-based testing: round trip + substring-search oracle (canonical-equivalence scan under i), all 24 flag sets",
+    "Random search over strings of syntax/special characters and texts with planted copies; escape(s) must compile under all 24 flag sets and match exactly the occurrences of s.",
+    "Trusted: str::match_indices; for i the harness's own canonicalisation (std upper-casing + ES legacy rule; regex-syntax simple folding, Unicode 16 plus std for newer characters).", "3 C18")
 
 def main():
     hooks_commits = []
